@@ -273,7 +273,7 @@ _T = {
          "the ghost reader is a transcription of dis.findlinestarts (<= 3.9, without the 3.8+ end-of-code cut) - trusted, cross-checked by the bounded round trip through the real CPythons; duplicate consecutive lines and equal offsets are outside the proved domain (a dict has distinct offsets; the reader itself drops duplicate lines); unsigned tables: lines must not decrease (the encoder skips such entries by design); Code310 encoder: bounded only."),
  "C11": ("Exception escape is proved for load_module_from_file_object: for the magic word of every final release, every PyPy magic of the corpus, every other magic in xdis's own tables, the dropbox magics and unknown words, for all file contents of at least 50 bytes (what load_module guarantees) and whatever the code readers do - each external reader may raise an exception of unknown class at its call - the function returns a 7-tuple (or the dropbox decoder's result) or raises ImportError, and closes nothing twice; a frame obligation per function reachable from load_module (151, over an over-approximated call graph) shows no exec/eval/compile/dynamic import/file-system write primitive. Termination, memory and the unmarshaller's own behaviour on corrupt data are covered by a bounded hostile-input sweep (prefixes, byte flips, insertions, adversarial lengths and references, deep nesting, every magic word) under time and address-space limits with CPython audit hooks.",
          "KeyboardInterrupt/SystemExit not modelled; load_module's size check and open() are assumed to see the same file (no race); RecursionError raised inside the readers is converted to ImportError like any other exception (counts as failing cleanly); static frame analysis recognises primitives by spelling; the unmarshaller's termination on hostile input is bounded evidence only."),
- "C18": ("History independence is decided as a frame condition: for each of the 235 functions reachable from the public operations (load_module, disassemble_file, get_opcode / get_opcode_module, make_std_api, marsh dump(s)/load(s), load_code, Bytecode, the label and line-start finders) one obligation shows that its body writes no module-level or class-level container, no mutable default argument (also not by letting it escape into an attribute), keeps no memo (@lru_cache) and patches no table except by save/restore in a finally block; remap_opcodes is the documented exception. Writes through aliases (a module's table stored in an instance attribute and mutated there) are outside the static check and are covered by the bounded history replay: a 97-operation catalogue, each operation alone in a fresh interpreter vs inside random sequences, with digests of every process-wide container before and after each operation.",
+ "C18": ("History independence is decided as a frame condition: for each of the 235 functions reachable from the public operations (load_module, disassemble_file, get_opcode / get_opcode_module, make_std_api, marsh dump(s)/load(s), load_code, Bytecode, the label and line-start finders) one obligation shows that its body writes no module-level or class-level container, no mutable default argument (also not by letting it escape into an attribute), keeps no memo (@lru_cache) and patches no table except by save/restore in a finally block; remap_opcodes is the documented exception. Two alias forms are tracked statically (a local bound to a module-/class-level object; self.attr bound to another object's attribute without copying); other aliasing is left to the bounded history replay: a 97-operation catalogue, each operation alone in a fresh interpreter vs inside random sequences, with digests of every process-wide container before and after each operation.",
          "call graph over-approximated by name (see frames.ASSUMPTIONS); import-time table construction (init_opdata, fields2copy) is not reachable from the public operations and is not checked; aliasing: bounded evidence only."),
  "C12": ("Only the 'clean' clause is decided deductively: a frame obligation for each of the 228 functions reachable from disassemble_file / pydisasm's main shows that its body has no print() without file=, no print(file=sys.stdout) and no sys.stdout.write (the listing goes to the stream it was given). Totality over the six formats and faithfulness of the classic/bytes listings to the instruction stream (each non-CACHE instruction once, in order, offset, name, operand, '>>' iff jump target, line number iff it starts a line) are checked on the corpus (2 files per version directory quick, all 260+ thorough): bounded.",
          "the per-instruction formatter (string formatting) and the listing loop are outside pyvc's modelled subset (opaque text): bounded evidence only; the instruction stream itself is the subject of C02-C05/C20; two recorded known findings (1.5-2.0 lnotab lines, xasm on PyPy 3.2)."),
